@@ -132,6 +132,19 @@ def clause1_fanout(ctx, P, cg):
                            "the delivery loop is left as soon as one recipient's %s fails [exit on %s]: the remaining recipients "
                            "of this event silently miss it" % (g.srcname, fmt_atom(bad[2], bad[3])) if bad else
                            "loop continues past a failing recipient")
+    nf = P.fn("fetch.c:notify_fetchers")
+    okl = False
+    for lh, body in nf.loops().items():
+        t = nf.term_inst(lh)
+        if t.op == "br" and t.a:
+            c = P.cond(nf, t.a[0])
+            if c[0] != "const" and c[0][0] == "cmp" and c[0][1] == "ult" and c[0][2][0] == "phi" and \
+                    Q.is_field_load(c[0][3], "struct.element", "fetch_table_size") is not None:
+                exits = [(b, s2) for b in body for s2 in nf.succs[b] if s2 not in body]
+                okl = all(b == lh for b, s2 in exits) and 0 in [P.const_int(x) for x, _ in nf.insts[c[0][2][1]].inc]
+    ctx.ob("C11.1 R-LOOP", nf, "walks-every-slot", okl,
+           "notify_fetchers leaves its loop before slot fetch_table_size-1 (e.g. at the first empty slot - unfetch and disconnect "
+           "leave holes): subscribers behind the exit silently miss the event")
     if n < 3:
         raise AnalysisBroken("fan-out loops with varying recipient: found %d, expected >= 3" % n)
     ctx.floor("C11.1 R-LOOP", 3)
@@ -197,6 +210,50 @@ def clause2_accept(ctx, P, cg):
         ctx.ob("C11.2 R-TABLE", ac, "accept-errno:" + name, v is None,
                "accept() failing with %s (a per-connection / transient condition) reaches EL_ABORT_LOOP: one aborted connection "
                "attempt stops the whole daemon" % name if v else "%s is not fatal" % name, witness=v.witness() if v else None)
+    # edge-triggered listener: after a per-connection error the loop must try the next pending connection, not return
+    RETRY = ("ECONNABORTED", "EINTR", "EPROTO")
+    stuck = {}
+    for v in views:
+        failed = v.has_atom(lambda a, p: a[0] == "cmp" and a[2][0] == "call" and a[2][3] == acc[0].id and a[3] == ("const", -1) and Q._poleq(a, p))
+        if not failed:
+            continue
+        # the path ends (returns) right after this failed accept: which errno classes can be on it?
+        last_acc = max(k for k, i in v.insts() if i.id == acc[0].id)
+        again = any(k > last_acc and i.id == acc[0].id for k, i in v.insts())
+        nacc = sum(1 for k, i in v.insts() if i.id == acc[0].id)
+        if nacc > 1:
+            continue  # judged on single-iteration paths
+        excluded = set()
+        included = None
+        for (a, p) in v.atoms:
+            if a[0] == "cmp" and is_errno(a[2]) and a[3][0] == "const":
+                if Q._poleq(a, p):
+                    included = {a[3][1]}
+                else:
+                    excluded.add(a[3][1])
+            if a[0] == "switch" and is_errno(a[1]):
+                included = {a[2]}
+            if a[0] == "switch_default" and is_errno(a[1]):
+                excluded |= set(a[2])
+            if a[0] == "truth" and a[1][0] == "call" and len(a[1][2]) == 1 and is_errno(a[1][2][0]):
+                hs = P.by_src.get(a[1][1], [])
+                if len(hs) == 1 and P.own(hs[0]):
+                    ts = true_set(hs[0])
+                    if p:
+                        included = ts if included is None else (included & ts)
+                    else:
+                        excluded |= ts
+        for name in RETRY:
+            val = Q.macro(P, "linux_io.c", name)
+            possible = (included is None or val in included) and val not in excluded
+            if possible:
+                stuck.setdefault(name, v)
+    for name in RETRY:
+        v = stuck.get(name)
+        ctx.ob("C11.2 R-LOOP", ac, "accept-retries:" + name, v is None,
+               "after accept() failed with %s the accept loop returns instead of trying the next pending connection: with the "
+               "edge-triggered listener the attempts queued behind the aborted one stay unserved until another connection arrives" % name
+               if v else "%s: next pending connection is tried" % name, witness=v.witness() if v else None)
     ctx.note("accept loop: %d abort path(s) after a failed accept" % n_abort)
     # connection-level callbacks never abort the loop
     for fld in ("read_function", "write_function", "error_function"):
